@@ -53,7 +53,11 @@ class Cases:
         """returns the disagreements"""
         out = run_model(self.lines)
         bad = []
+        from common import MODEL_CRASH
+        self.model_crashes = sum(1 for o in out if o == MODEL_CRASH)
         for i, (o, e) in enumerate(zip(out, self.exp)):
+            if o == MODEL_CRASH:
+                continue
             if o != e:
                 bad.append({"op": self.lines[i].split("\t")[0], "case": self.desc[i], "model": o, "impl": e})
         return bad
@@ -64,6 +68,7 @@ class Cases:
             "distinct": len(set(self.lines)),
             "ops": dict(self.ops),
             "outcomes": dict(self.kinds),
+            "model_crashes_skipped": getattr(self, "model_crashes", 0),
         }
 
 
